@@ -363,7 +363,18 @@ class World(object):
                     orig = getattr(DefaultHandler, name)
 
                     def method(self_, *a, **kw):
-                        world.note("h", name)
+                        # same record as the recording handler makes: (name, connection, payload), taken
+                        # BEFORE the real handler runs (it may not alter what the session layer keeps)
+                        if name in ("update_received", "on_update_error", "open_received", "send_open"):
+                            world.note("h", name, world.cid_of(a[0]), canon(a[2]))
+                        elif name == "route_refresh_received":
+                            world.note("h", name, world.cid_of(a[0]), canon(a[1]), a[2])
+                        elif name == "notification_received":
+                            world.note("h", name, world.cid_of(a[0]), canon(a[1]))
+                        elif name == "on_connection_failed":
+                            world.note("h", name, str(a[1]))
+                        else:
+                            world.note("h", name, world.cid_of(a[0]))
                         return orig(self_, *a, **kw)
                     method.__name__ = name
                     return method
